@@ -47,6 +47,9 @@ type c41Replayable struct {
 	Order   string   `json:"order,omitempty"`
 	Trace   []string `json:"trace"`
 	Class   string   `json:"class"`
+	// Deviation: the violation is one of the REAL final state after the transports left the
+	// step model (c41_real.go), not a model counter-example
+	Deviation bool `json:"deviation,omitempty"`
 }
 
 func parseStep(s string) (mstep, error) {
@@ -310,6 +313,11 @@ func c41(c *report.Check) {
 	}
 	c.Set("table_status_sent", sent)
 	c.Set("table_reap", tb.T[0].Reap)
+	if tb.ReapPre {
+		c.Set("table_reap_depends_on_pre_lock_read", "reapPeer rows differ with the cache content before the lock (the function acts on something it read outside the critical section): the model records what each close watcher saw when it woke up")
+	} else {
+		c.Set("table_reap_depends_on_pre_lock_read", "no: every reapPeer row is the same whatever the cache held before the lock was taken (rows <pre>><lock>, cache changed while the function was parked at the lock)")
+	}
 	orders := []string{""}
 	if tb.Same {
 		c.Set("table_address_order", "tables extracted with the transport's address lower and higher than its peer's are identical: decisions do not depend on identity order, one order explored")
@@ -470,12 +478,75 @@ func c41(c *report.Check) {
 	c.Set("replayed_transition_cover_traces", nEdge)
 	c.Set("rule", "table: every (direction x cache at snapshot x cache at decision x peer status incl. malformed) row run on the real reuseConnection, every reapPeer row; model: BFS over all interleavings of the atomic steps for each (initial cache state x who dials); conformance: shortest trace to every quiescent state (every violating one included), a transition cover (thorough: of every configuration, quick: of the configurations with init=none/shared) and every complete interleaving of the configurations listed, replayed on two real transports through gates, compared after every step")
 	if len(bad) > 0 {
-		for i, b := range bad {
-			if i < 5 {
-				c.Internal("model/implementation mismatch (the model is wrong, not the code): " + b)
+		c.Set("replay_mismatches", len(bad))
+		// The real transports did not follow the step model on these traces. That is only a
+		// machinery problem if what they did instead is harmless: drive each such trace (a
+		// bounded, deterministically chosen number of them, consistent initial states first,
+		// shortest first) to quiescence on the real transports and judge the REAL final state.
+		var dev []*replayJob
+		seenDev := map[string]bool{}
+		for _, j := range jobs {
+			k := j.cfg.String() + "|" + traceStr(j.trace)
+			if j.err != nil && !seenDev[k] {
+				seenDev[k] = true
+				dev = append(dev, j)
 			}
 		}
-		c.Set("replay_mismatches", len(bad))
+		sort.SliceStable(dev, func(a, b int) bool {
+			x, y := dev[a], dev[b]
+			if vx, vy := verdictInit(x.cfg.Init), verdictInit(y.cfg.Init); vx != vy {
+				return vx
+			}
+			if len(x.trace) != len(y.trace) {
+				return len(x.trace) < len(y.trace)
+			}
+			if x.cfg.String() != y.cfg.String() {
+				return x.cfg.String() < y.cfg.String()
+			}
+			return traceStr(x.trace) < traceStr(y.trace)
+		})
+		const maxEval, enough = 40, 3
+		evaluated, realViol := 0, 0
+		var harmless, devNotes []string
+		for _, j := range dev {
+			if evaluated >= maxEval || realViol >= enough {
+				break
+			}
+			if !verdictInit(j.cfg.Init) && realViol > 0 {
+				break
+			}
+			evaluated++
+			res := evalDeviation(j.cfg, tb, j.trace)
+			switch {
+			case res.err != nil:
+				c.Internal(fmt.Sprintf("evaluating the deviation on %s [%s]: %v (%s)", j.cfg, traceStr(j.trace), res.err, res.mismatch))
+			case res.violated && verdictInit(j.cfg.Init):
+				realViol++
+				devNotes = append(devNotes, res.sig+" <= "+j.cfg.String()+" ["+traceStr(j.trace)+"]")
+				c.Violation(res.sig, res.what, c41Replayable{Init: j.cfg.Init, Dialers: j.cfg.Dialers, Order: j.cfg.Order, Trace: stepStrings(j.trace), Class: res.sig, Deviation: true})
+			case res.violated:
+				devNotes = append(devNotes, "conditional (assumed one-sided initial state): "+res.sig+" <= "+j.cfg.String()+" ["+traceStr(j.trace)+"]")
+				harmless = append(harmless, fmt.Sprintf("%s [%s]: %s", j.cfg, traceStr(j.trace), res.mismatch))
+			default:
+				harmless = append(harmless, fmt.Sprintf("%s [%s]: %s; real end state %s satisfies the statement", j.cfg, traceStr(j.trace), res.mismatch, res.end))
+			}
+		}
+		c.Set("deviating_traces_driven_to_quiescence_on_real_transports", evaluated)
+		c.Set("deviations_with_real_violation", devNotes)
+		if realViol == 0 {
+			// nothing the real transports did instead violates the statement: the model is wrong
+			for i, b := range bad {
+				if i < 5 {
+					c.Internal("model/implementation mismatch (the model is wrong, not the code): " + b)
+				}
+			}
+		} else {
+			c.Set("deviations_explained", "the implementation does not follow the per-critical-section step model (behaviour depends on state read outside the cache lock); the real final states above violate the statement, so the remaining mismatches are consequences of the same deviation, not machinery errors")
+			if len(harmless) > 8 {
+				harmless = harmless[:8]
+			}
+			c.Set("deviations_without_real_violation_sample", harmless)
+		}
 	}
 
 	// ---- verdicts ----
@@ -537,6 +608,27 @@ func c41Replay(c *report.Check, raw []byte) {
 		return
 	}
 	cfg := mconfig{r.Init, r.Dialers, r.Order}
+	if r.Deviation {
+		var tr []mstep
+		for _, s := range r.Trace {
+			e, err := parseStep(s)
+			if err != nil {
+				c.Internal(err.Error())
+				return
+			}
+			tr = append(tr, e)
+		}
+		res := evalDeviation(cfg, tb, tr)
+		switch {
+		case res.err != nil:
+			fmt.Println("not reproduced:", res.err)
+		case res.violated:
+			c.Violation(res.sig, res.what, r)
+		default:
+			fmt.Println("the real final state satisfies the statement:", res.end)
+		}
+		return
+	}
 	st := initState(cfg)
 	var tr []mstep
 	for _, s := range r.Trace {
